@@ -143,6 +143,9 @@ def c03_case(args):
         ob = f"{desc}|compiles"
         res["obligations"].append(ob)
         try:
+            from ..prime import prime, decoy_text
+            dtext = decoy_text(schema)
+            prime(dtext, ("cpp",))
             cxx.generate_cpp(schema.text(), d)
             open(os.path.join(d, "harness.cpp"), "w").write(cxx.harness_source(schema))
             ok, ll = cxx.compile_to_ir(d)
@@ -157,7 +160,7 @@ def c03_case(args):
                 res["known"].append((hit[0]["id"], hit[0]["what"]))
                 res["discharged"] += 1
                 return res
-            path = write_replay("C03", {"kind": "cpp_compile", "schema_text": schema.text(), "property": "C03",
+            path = write_replay("C03", {"kind": "cpp_compile", "schema_text": schema.text(), "property": "C03", "decoy_text": decoy_text(schema),
                                         "schema": {"structs": schema.structs, "enums": schema.enums, "top": top}})
             okr, text = run_replay(path)
             if okr:
@@ -195,7 +198,7 @@ def c03_case(args):
 
             def mk(mdl, canon=canon):
                 val = concretize(inst.value, mdl)
-                return {"kind": "cpp_encode", "schema_text": schema.text(), "top": top, "value": to_json(val),
+                return {"kind": "cpp_encode", "schema_text": schema.text(), "top": top, "value": to_json(val), "decoy_text": dtext,
                         "schema": {"structs": schema.structs, "enums": schema.enums, "top": top},
                         "expected_bytes": [mdl.eval(b, model_completion=True).as_long() for b in canon]}
 
@@ -250,7 +253,7 @@ def c03_case(args):
                 return n, [m.mem[areap + i] for i in range(n)]
 
             def mkd(mdl, raw=raw):
-                d_ = {"kind": "cpp_decode", "schema_text": schema.text(), "top": top,
+                d_ = {"kind": "cpp_decode", "schema_text": schema.text(), "top": top, "decoy_text": dtext,
                       "schema": {"structs": schema.structs, "enums": schema.enums, "top": top},
                       "bytes": [mdl.eval(b, model_completion=True).as_long() if not isinstance(b, int) else b for b in raw]}
                 return d_
